@@ -151,7 +151,7 @@ PROPERTIES["C01"] = dict(
     explanation=(
         "MECHANISM LEVEL ONLY. lexer::update and the real node parsers (nom) cannot be executed symbolically here, so this "
         "check decides the generic reuse machinery every node parser is built from, compiled from /repo: TokenChange::"
-        "{new_token_pos,out_of_range,deletes,overlaps} against the set-theoretic meaning of a change window (A1); the real "
+        "{new_token_pos,out_of_range,deletes,overlaps}: exact new index of surviving tokens, no over/underflow, and the predicates never MISS a change (A1; the conservative direction is deliberately not asserted); the real "
         "affected() instantiated with a harness node type Leaf = ';'+ (one token of look-ahead) on an arbitrary old token "
         "array, an arbitrary truthful window with up to 2 inserted tokens, an arbitrary old node and every reachable parser "
         "position: whenever the old node is REUSED, a parse from scratch at that position yields the same node and rest "
@@ -169,8 +169,8 @@ PROPERTIES["C01"] = dict(
     outside=["more old tokens / inserted tokens than the bound", "real AST node parsers and their look-ahead", "many(), parse_list(), handle_insertions (list resynchronisation)", "lexer::update", "table::build / analyze"],
     harnesses=[
         H("tokens::__verif::c01_a1_new_token_pos", QT, "new index of surviving tokens; no over/underflow", "all usize values up to 2^32", timeout=600),
-        H("tokens::__verif::c01_a1_out_of_range", QT, "out_of_range(p) <=> p >= ds+ins", "all usize values up to 2^32", timeout=600),
-        H("tokens::__verif::c01_a1_deletes_overlaps", QT, "deletes / overlaps vs set-theoretic meaning", "all usize values up to 2^32", timeout=600),
+        H("tokens::__verif::c01_a1_out_of_range", QT, "p >= ds+ins => out_of_range(p) (the direction reuse soundness needs); total", "all usize values up to 2^32", timeout=600),
+        H("tokens::__verif::c01_a1_deletes_overlaps", QT, "a deleted token inside R, or tokens inserted strictly inside R => overlaps(R) (the direction reuse soundness needs); deletes total", "all usize values up to 2^32", timeout=600),
         H("tokens::__verif::c01_a1_twin_must_fail", QT, "vacuity twin", "", expect="fail", timeout=600),
         H("parser::utility::__verif::c01_a2_q", Q, "affected(): reuse => same as parse from scratch", "4 old tokens + Eof of symbolic kind, any window, <=2 inserted tokens, any old ';'-run node, any reachable position; unwind 8", timeout=1200, mem_gb=20),
         H("parser::utility::__verif::c01_a3_messages", QT, "reused node keeps lexical/syntax messages, drops build/semantic ones", "2 messages of symbolic class", timeout=900),
